@@ -121,7 +121,7 @@ def correspond(ctx):
                 dis.append({'case': {'target': target, 'k': k, 'krho': krho}, 'what': 'tabulating target %s raised %s: %s' % (target, type(e).__name__, str(e)[:100])}); continue
             want = (k + 1, krho + 1 if target not in ('LAMMPS', 'DL_POLY', 'GULP', 'excel') else None)
             if got != want: dis.append({'case': {'target': target, 'k': k, 'krho': krho}, 'what': 'target %s wrote (nr, nrho) = %r, the [Tabulation] section fixes %r' % (target, got, want)})
-    for fam in ('pair', 'eam'):
+    for fam in ('pair', 'eam', 'nosection', 'emptysection'):
         try: f = check_defaults(fam)
         except Exception as e: f = ['tabulating with default grids raised %s: %s' % (type(e).__name__, str(e)[:100])]
         if f: dis.append({'case': {'defaults_after': fam}, 'what': f[0]})
@@ -147,7 +147,22 @@ def defaults_after(family):
     rows = out.split('\n')[2:-1]
     return {'nr': len(rows), 'dr': float(rows[1].split()[1])}
 
+def defaults_after_nosection(variant):
+    """the grid of a model that has no [Tabulation] section at all ('nosection') or an empty one ('emptysection'), read after a model that set
+    nr / cutoff / nrho / cutoff_rho in the same process"""
+    from atsim.potentials.config import Configuration
+    first = '[Tabulation]\ntarget : setfl\nnr : 8\ncutoff : 2.0\nnrho : 5\ncutoff_rho : 3.0\n[Pair]\nAl-Al : as.constant 1.0\n[EAM-Embed]\nAl : as.constant 2.0\n[EAM-Density]\nAl : as.constant 3.0\n'
+    sc.tabulate(first)
+    sc.tabulate('[Tabulation]\ntarget : GULP\ncutoff : 2.0\ndr : 0.5\n[Pair]\nAl-Al : as.constant 1.0\n')
+    second = ('[Tabulation]\n' if variant == 'emptysection' else '') + '[Pair]\nAl-Al : as.constant 1.0\n'
+    tab = Configuration().read(io.StringIO(second))
+    return {'nr': tab.nr, 'cutoff': tab.cutoff}
+
 def check_defaults(family):
+    if family in ('nosection', 'emptysection'):
+        got = defaults_after_nosection(family); want = {'nr': 1001, 'cutoff': 10.0}
+        return [] if got == want else ['a model with %s, read after other models in the same process, gets the grid %r instead of the documented defaults %r' % (
+            'no [Tabulation] section' if family == 'nosection' else 'an empty [Tabulation] section', got, want)]
     got = defaults_after(family)
     want = {'nr': 1001, 'dr': 0.01} if family == 'pair' else {'nr': 1001, 'dr': 0.01, 'nrho': 1001, 'drho': 0.1}
     bad = [k for k in want if (got[k] != want[k] if isinstance(want[k], int) else abs(got[k] - want[k]) > 1e-12)]
@@ -244,6 +259,8 @@ def target_grid(target, k, krho, step='0.25', steprho='0.5'):
 def search_cases(rng, n):
     yield {'defaults_after': 'pair'}
     yield {'defaults_after': 'eam'}
+    yield {'defaults_after': 'nosection'}
+    yield {'defaults_after': 'emptysection'}
     for _ in range(n): yield gen_case(rng)
 def finding_for(case, fails): return None
 def replay_finding(f): return False
